@@ -407,9 +407,22 @@ let () =
     | ErrParse (line, k, _, _) -> Printf.sprintf "P%s@%d" (pkind_name k) (int_of_n line) in
   let run1 (o : op2) =
       (try
+        let w_before = !w in
         (match run_op2 t tab_el tab_at tab_en check_fn float_parse float_fmt latest name_index name_defref attr_schema root_attrs o !w with
          | Val (r, w') ->
            w := w';
+           (* C09: every load into a model that has files is also merged PURELY (Tree/MergePure.v pmerge on the trees read
+              back from the heap); a difference is printed, so it surfaces as a correspondence failure *)
+           (match o with
+            | OpLoad (m, buffer, _, strict) ->
+              let rr = (match r with OK (VLoad (f, _)) -> Some (OK f) | ER e -> Some (ER e) | _ -> None) in
+              (match rr with
+               | Some rr ->
+                 (match check_load_buffer t latest name_defref tab_el tab_at tab_en check_fn float_parse w_before m buffer strict rr w' with
+                  | Some msg -> out ("REFINE " ^ coqstr msg)
+                  | None -> ())
+               | None -> ())
+            | _ -> ());
            let res_elem = match r with OK (V1 (VElem e)) -> Some e | _ -> None in
            handles := discover !w !handles res_elem;
            (match r with
